@@ -94,12 +94,13 @@ def oracle(case, ctx):
         ctx.label("with_exogenous_data")
     metric = build_metric(case["metric"])
     gib = bool(metric.greater_is_better)
+    tuner_metric = None if case["metric"] == "default" else metric  # a tuner built without a metric scores with sMAPE
     grid = case["grid"]
     strategy = case["strategy"]
     base = build_base(case["base"])
     if case["search"] == "grid":
         cands = list(ParameterGrid(grid))
-        tuner = ForecastingGridSearchCV(base, cv=build_cv(case["cv"]), param_grid=grid, scoring=metric,
+        tuner = ForecastingGridSearchCV(base, cv=build_cv(case["cv"]), param_grid=grid, scoring=tuner_metric,
                                         strategy=strategy, refit=case["refit"])
     else:
         # the seed as an integer or as a generator object (one stream: the candidates that are
@@ -108,7 +109,7 @@ def oracle(case, ctx):
         cands = list(ParameterSampler(grid, case["n_iter"], random_state=np.random.RandomState(case["rs"]) if inst else case["rs"]))
         tuner = ForecastingRandomizedSearchCV(base, cv=build_cv(case["cv"]), param_distributions=grid,
                                               n_iter=case["n_iter"], random_state=np.random.RandomState(case["rs"]) if inst else case["rs"],
-                                              scoring=metric, strategy=strategy, refit=case["refit"])
+                                              scoring=tuner_metric, strategy=strategy, refit=case["refit"])
         if inst:
             ctx.label("random_state_is_a_generator_object")
     col = "test_" + metric.name
@@ -324,7 +325,7 @@ def cases(draw):
         "n_iter": draw(st.integers(1, 6)), "rs": draw(st.integers(0, 10 ** 6)),
         "values": draw(gen.series_values(n, n, lo=5.0, hi=300.0)),
         "start": draw(gen.index_start), "index_kind": draw(gen.index_kind),
-        "metric": draw(st.sampled_from(["smape", "mape_asym", "mse", "mse", "ratio", "ratio", "nanflat"])),
+        "metric": draw(st.sampled_from(["smape", "mape_asym", "mse", "mse", "ratio", "ratio", "nanflat", "default"])),
         "refit": draw(st.sampled_from([True, True, False])),
         "strategy": draw(st.sampled_from(["refit", "refit", "update"])),
         "scale": draw(st.sampled_from([1.0, 1.0, 1e-6, 1e-4, 1e-3, 1e4])),
